@@ -423,6 +423,46 @@ def history_rule(ctx):
     else:
         r.fail(fs.qualname, "commit", fs.file, fs.lineno, "PhaseField.Save_Iter", "Save_Iter does not commit the driving energy to the history field")
 
+    # the running maximum is handed to the model functions by reference: none of them may write it in place
+    from ..flow import CallGraph, alias_closure, is_view_expr, param_inplace
+
+    cg = CallGraph(repo)
+    pm = repo.cls(PFM)
+    nconsumers = 0
+    for name, f in sorted(ps.methods.items()):
+        if f.cls is not ps or name != f.node.name:
+            continue
+        seeds = set()
+        for n in walk_no_nested(f.node):
+            if isinstance(n, ast.Assign) and isinstance(n.targets[0], ast.Name):
+                txt = norm_text(n.value)
+                if isinstance(n.value, ast.Call) and (dotted(n.value.func) or "").endswith("__Calc_psiPlus_e_pg") or txt.endswith("psiP_e_pg") and txt.startswith("self."):
+                    seeds.add(n.targets[0].id)
+        if not seeds:
+            continue
+        aliases = alias_closure(f.node, seeds)
+        for n in walk_no_nested(f.node):
+            if not (isinstance(n, ast.Call) and isinstance(n.func, ast.Attribute)):
+                continue
+            pos = [i for i, a in enumerate(n.args) if is_view_expr(a, aliases)]
+            if not pos:
+                continue
+            g = repo.lookup_method(pm, n.func.attr)
+            if g is None:
+                continue
+            nconsumers += 1
+            r.instance(fn=g.qualname)
+            ps_ = g.params()
+            names = {ps_[i + 1] for i in pos if i + 1 < len(ps_)}
+            sinks = param_inplace(cg, g, names, depth=4)
+            if sinks:
+                gf, node, desc = sinks[0]
+                r.fail(g.qualname, f"history-inplace:{g.name}", gf.file, node.lineno, g.name, f"{f.name} passes the driving energy it keeps as the history candidate to {g.name}, which writes it in place ({desc}): Save_Iter then commits the overwritten array as the history field")
+            else:
+                r.ok(f"{g.name} only reads the driving-energy array it receives from {f.name}")
+    if nconsumers == 0:
+        raise AnalysisError("R17.5: no model function receives the driving energy from the simulation: anchor moved")
+
 
 def tables_rule(ctx):
     repo = ctx.repo
